@@ -3,6 +3,9 @@ C02 (verdict), C16 (no layer after a bad outcome under --stop-on-error)."""
 import os
 
 HERE = os.path.dirname(os.path.abspath(__file__))
+TEST_GHOST = {'bad': 'int', 'ntd': 'bool', 'stdout': 'Stream', 'stderr': 'Stream', 'tsu': 'bool', 'hookexc': 'bool',
+              'cap_out': 'Opt[Str]', 'cap_err': 'Opt[Str]'}
+STREAMS_SAME = "G.stdout == old(G.stdout) and G.stderr == old(G.stderr)"
 
 LISTS = 'List[Tuple[Any,Any]]'
 SELF_FIELDS = {
@@ -35,7 +38,7 @@ RESUME_TESTS = {            # assumed here; body under contract in the C06 check
                'layers': 'List[Tuple[Str,Layer,Suite]]', 'failures': LISTS, 'errors': LISTS, 'skipped': LISTS,
                'cwd': 'Any'},
     'returns': 'int',
-    'ghost': {'bad': 'int', 'ntd': 'bool'},
+    'ghost': TEST_GHOST,
     'requires': ["len(layers) >= 1"],
     'modifies': ['failures', 'errors', 'skipped', 'G.bad'],
     'ensures': ["G.bad - old(G.bad) == (len(failures) - old(len(failures))) + (len(errors) - old(len(errors)))",
@@ -47,16 +50,20 @@ RUNNER_RUN_TESTS = {
     'property': ['C01', 'C02', 'C16'],
     'params': {},
     'self_fields': SELF_FIELDS,
-    'ghost': {'bad': 'int', 'ntd': 'bool'},
+    'ghost': TEST_GHOST,
     'locals': {'setup_layers': 'Dict[Layer,int]'},
-    'requires': ["WF()", "not G.ntd"],
-    'modifies': ['self.ran', 'self.failures', 'self.errors', 'self.skipped', 'self.failed', 'G.bad', 'G.ntd'],
+    'requires': ["WF()", "not G.ntd", "not G.tsu", "not G.hookexc"],
+    'modifies': ['self.ran', 'self.failures', 'self.errors', 'self.skipped', 'self.failed', 'G.bad', 'G.ntd',
+                 'G.stdout', 'G.stderr', 'G.tsu', 'G.hookexc', 'G.cap_out', 'G.cap_err'],
     'ensures': [
         "forall(l, Layer, l not in setup_layers)",                                       # C01: every set-up layer was torn down
         "self.failed == (len(self.import_errors) + len(self.failures) + len(self.errors) > 0)",   # C02: verdict
         "implies(not self.options.post_mortem, " + SBAD + ")",                            # C02: one entry per bad outcome
+        STREAMS_SAME,                                                                     # C13/C18
     ],
-    'raises': {'OtherBase': [], 'MemoryError': []},
+    # C04: apart from KeyboardInterrupt & co. and MemoryError only an exception of a per-test layer hook escapes
+    'raises': {'OtherBase': [STREAMS_SAME], 'KeyboardInterrupt': [STREAMS_SAME], 'MemoryError': [STREAMS_SAME],
+               'Exception': ["G.hookexc", STREAMS_SAME]},
     'callsites': {
         'run_layer': [
             "not G.ntd",                                                                  # C01: nothing after a refused tearDown
@@ -75,7 +82,7 @@ RUNNER_RUN_TESTS = {
             "len(self.failures) >= old(len(self.failures))", "len(self.errors) >= old(len(self.errors))",
             "implies(self.options.stop_on_error, len(self.failures) == pre(len(self.failures), '#loop1')"
             " and len(self.errors) == pre(len(self.errors), '#loop1'))",
-            "not should_resume",
+            "not should_resume", "not G.tsu", "not G.hookexc", STREAMS_SAME,
         ],
         '#loop2': [],
     },
